@@ -1,9 +1,9 @@
 #!/bin/bash
 # usage: diffcheck.sh <diff> [servcheck binary]  — applies the diff in scratch worktree /tmp/scratch/w2 (never /repo), builds, runs servcheck -all, resets.
-W=/tmp/scratch/w2; BIN=${2:-/verif/bin/servcheck}
+W=${W:-/tmp/scratch/w2}; BIN=${2:-/verif/bin/servcheck}
 cd $W && git checkout -q --detach $(git -C /repo rev-parse HEAD) && git checkout -q -- . && git clean -fdq
 if ! git apply "$1" 2>/tmp/scratch/apply.err; then echo "NOAPPLY $(head -2 /tmp/scratch/apply.err)"; exit 3; fi
 export GOFLAGS=-mod=mod GOPROXY=off GOSUMDB=off GOTOOLCHAIN=local
 if ! go build ./... 2>/tmp/scratch/build2.err; then echo "NOBUILD"; head -3 /tmp/scratch/build2.err; git checkout -q -- .; exit 4; fi
-$BIN -all -repo $W -verif /tmp/scratch/v2 2>&1 | grep -E "^  rule |^  at |CHECK-BROKEN|quick: .* [1-9][0-9]* violations" | head -${3:-30}
+$BIN -all -repo $W -verif ${V:-/tmp/scratch/v2} 2>&1 | grep -E "^  rule |^  at |CHECK-BROKEN|quick: .* [1-9][0-9]* violations" | head -${3:-30}
 git checkout -q -- . && git clean -fdq
